@@ -58,10 +58,13 @@ class LockProvider(ABC):
 class LocalLockProvider(LockProvider):
     """Local filesystem lock using flock/msvcrt."""
 
-    def __init__(self, lock_path: str, timeout: float = 30.0):
+    def __init__(self, lock_path: str, timeout: float = 30.0, resolve: Any = None):
         self.lock = FileLock(lock_path, timeout)
+        self._resolve = resolve
 
     def acquire(self) -> bool:
+        if self._resolve is not None and not self.lock.is_held():
+            self.lock.lock_file = self._resolve()
         return self.lock.acquire()
 
     def release(self) -> None:
